@@ -652,6 +652,7 @@ def oracle_c08(an):
     out = []
     V = lambda cls, msg, seq=None, **f: out.append(Violation('C08', 'C08.' + cls, msg, seq, **f))
     lease = bool(an.plan.get('client', {}).get('honor_lease') or an.plan.get('server', {}).get('honor_lease'))
+    _c08_wire_rules(an, V)
     for ep in ('client', 'server'):
         parity = 1 if ep == 'client' else 0
         st = {}
@@ -772,6 +773,36 @@ def oracle_c08(an):
                         if s.out_done:
                             s.dead, s.why = True, 'both directions completed'
     return out
+
+
+def _c08_wire_rules(an, V):
+    """Reception-independent rules judged on the wire itself (what the peer actually sees): the
+    client's first frame is SETUP, and the first frame of every stream an endpoint opens is its
+    request frame (a priority insertion or a re-ordering in the send queue must not change that)."""
+    lease = bool(an.plan.get('client', {}).get('honor_lease') or an.plan.get('server', {}).get('honor_lease'))
+    for ep in ('client', 'server'):
+        parity = 1 if ep == 'client' else 0
+        d = 'c2s' if ep == 'client' else 's2c'
+        opened = set()
+        first = True
+        for ev in an.by_kind['wire']:
+            if not str(ev['dir']).startswith(d):
+                continue
+            f = ev['f']
+            t, sid = f['type'], f['sid']
+            if first and ep == 'client' and t != 'SETUP' and not an.plan.get('reconnects'):
+                V('wire_first_frame_not_setup', 'first frame the client wrote is %s' % t, ev['seq'], ep=ep, type=t, lease=lease)
+            first = False
+            if sid <= 0 or sid % 2 != parity or t == 'UNDECODABLE':
+                continue
+            if t in REQ_TYPES:
+                opened.add(sid)
+            elif sid not in opened:
+                followed = any(e2['f']['sid'] == sid and e2['f']['type'] in REQ_TYPES and e2['seq'] > ev['seq']
+                               and str(e2['dir']).startswith(d) for e2 in an.by_kind['wire'])
+                V('wire_stream_starts_without_request', '%s is the first frame written on stream %d' % (t, sid), ev['seq'],
+                  ep=ep, type=t, lease=lease, request_waiting_for_lease=bool(lease and followed))
+                opened.add(sid)
 
 
 # ------------------------------------------------------------------------------------------
